@@ -28,3 +28,20 @@ pub fn table(code: u8) -> Option<u8> {
         _ => None,
     }
 }
+
+/// reference template for the chunk-name format (R-TEMPLATE oracle: what `{}-{:03}-{}` compiles to with this toolchain)
+pub fn chunk_name_template(prefix: &str, sequence: usize, letter: &str) -> String {
+    format!("{}-{:03}-{}", prefix, sequence, letter)
+}
+
+/// reference templates for the S3 keys and URLs
+pub fn key_templates(a: &str, b: &str, c: &str, n: usize) -> [String; 6] {
+    [
+        format!("{}/{}/{}", a, b, c),
+        format!("{}/{}", a, b),
+        format!("{}/{}/", a, b),
+        format!("https://{}.s3.amazonaws.com/{}", a, b),
+        format!("https://{}.s3.amazonaws.com?list-type=2&prefix={}", a, b),
+        format!("&max-keys={}", n),
+    ]
+}
